@@ -124,8 +124,8 @@ def generate(rng, tier):
     # every continued link is run TWICE from the same unchanged file
     j = 0
     for c in cases:
-        if S.uses_random(c["recipe"]) or c["recipe"].get("raw_yaml") or len(c["ks"]) < 2:
-            continue
+        if S.uses_random(c["recipe"]) or c["recipe"].get("raw_yaml") or len(c["ks"]) < 2 or c["recipe"].get("supplied"):
+            continue        # (option values given by the user arrive as text on the command line: another question)
         j += 1
         if j % 5 == 0:
             c["route"] = ROUTES[(j // 5) % len(ROUTES)]
@@ -166,6 +166,8 @@ def run_route(recipe, ks, route):
                     if route.startswith("cli"):
                         from snowfakery.cli import generate_cli
                         args = [rp, "--reps", str(k), "--output-format", "json", "--output-file", of]
+                        for on, ov in (recipe.get("supplied") or {}).items():     # as in the capture run
+                            args += ["--option", str(on), str(ov)]
                         if i > 0:
                             args += ["--continuation-file", src]
                         if not last:
@@ -174,6 +176,7 @@ def run_route(recipe, ks, route):
                     else:
                         from snowfakery.api import generate_data, COUNT_REPS
                         generate_data(rp, target_number=(COUNT_REPS, k), output_format="json", output_file=of,
+                                      user_options=dict(recipe.get("supplied") or {}),
                                       continuation_file=(src if i > 0 else None),
                                       generate_continuation_file=(os.path.join(d, f"next_{tag}.yml") if not last else None))
                     with open(of) as f:
